@@ -7,7 +7,7 @@
    earlier versions of the code (kept for the refuted statements).  Single promise: Join is not
    in this model. *)
 From CV Require Import Promise.Promise Promise.PromiseProofs Promise.PromiseStepProofs Promise.MuProofs
-  Promise.PromiseTheorems Promise.PromiseLive.
+  Promise.PromiseTheorems Promise.PromiseLive Promise.PromiseJoin Promise.PromiseJoinProofs.
 Open Scope Z_scope.
 
 (* the promise resolves at most once; Fulfill/Reject after the first one panics (OPanic), the
@@ -129,3 +129,25 @@ Theorem C11_no_stuck_refuted :
   end.
 Proof. exact no_stuck_refuted. Qed.
 Print Assumptions C11_no_stuck_refuted.
+
+(* Join (model PromiseJoin.v; theorems over all interleavings are for the single-promise model): the seeded
+   change C11-3 (resolve no longer closes p.joined) and the code as found (F11c, nil client table) are refuted by
+   concrete histories, replayed on the real code (corpus/C11-promise.txt) *)
+Theorem C11_join_resolve_refuted :
+  match jquiesce jseed3 1000 (jinit 2 seed3_history) 7 with
+  | Some c => forallb (fun t => negb (jenabled jseed3 c t)) (jall_tids c) = true /\
+              jfinished c 4 = false /\ jfinished c 5 = false /\ jfinished c 6 = true /\ all_mu_free c = true
+  | None => False
+  end.
+Proof. exact join_resolve_refuted. Qed.
+Print Assumptions C11_join_resolve_refuted.
+
+Theorem C11_join_nil_table_refuted :
+  match jquiesce jf11c 1000 (jinit 2 f11c_history) 3 with
+  | Some c => match nth_error (jthreads c) 1 with
+              | Some th => j_out th = OPanic | None => False end /\
+              jmutex_blocked c 2 = true /\ all_mu_free c = false
+  | None => False
+  end.
+Proof. exact join_nil_table_refuted. Qed.
+Print Assumptions C11_join_nil_table_refuted.
